@@ -178,6 +178,7 @@ class SimKernel:
         self.snaps = []
         self.oracle_mode = False
         self.static_procfs = cfg.get("procfs_flavor") == "static"
+        self.deny = {}      # exact path -> errno (persistent refusals)
         self.pins = {}
         self.watch = ()
         self.proc_hist = []
@@ -1148,6 +1149,8 @@ class SimKernel:
             path = path.decode()
         sp = self._split_proc(path)
         self._acc("open", path, sp[0] if sp else None, bool(sp))
+        if self.deny and path in self.deny:
+            raise self._err(self.deny[path], path)
         if sp:
             pid, rest = sp
             node = self.proc_node(pid, rest, path)
@@ -1222,6 +1225,8 @@ class SimKernel:
         spath = spath.rstrip("/") or "/"
         sp = self._split_proc(spath)
         self._acc("listdir", spath, sp[0] if sp else None, bool(sp))
+        if self.deny and spath in self.deny:
+            raise self._err(self.deny[spath], spath)
         names = self._listdir(spath, sp)
         names = self._order(names)
         if ret_bytes:
@@ -1358,6 +1363,8 @@ class SimKernel:
         path = _os.fspath(path)
         sp = self._split_proc(path)
         self._acc("readlink", path, sp[0] if sp else None, bool(sp))
+        if self.deny and path in self.deny:
+            raise self._err(self.deny[path], path)
         if sp:
             pid, rest = sp
             node = self.proc_node(pid, rest, path)
